@@ -34,6 +34,12 @@ def gen_file(rng):
             flags = rng.choice([0x01, 0x08, 0x10 if vmaj == 3 else 0x0f])
         if kind == "ext":
             flags = 0x40
+        if kind == "ext":
+            # what follows an extended-header flag: a frame id (the tagger's mistake mutagen tolerates), a plausible extended
+            # header, or sizes that are not syncsafe / below 4 / beyond the data
+            ext = rng.choice([b"TIT2", b"TXXX", b"\0\0\0\x06" + b"\x01\0", b"\0\0\0\x0a" + b"\0" * 6, b"\0\0\0\x03", b"\0\0\0\x04",
+                              b"\0\0\x80\x06ab", b"\0\0\x7f\x7f", b"\xff\xff\xff\xff", b"\0\0", b"", b"\0\0\0\x00", b"TIT\xe9"])
+            body = ext + (body if rng.random() < 0.7 else b"")
         if kind == "v24pad":
             body += b"\0" * rng.choice([1, 10, 1000])
         size = syncsafe(len(body))
